@@ -14,8 +14,12 @@ theorem C09_gen_scan_gates :
     ObsTables.serviceScanGate = ("health_state_visible", "health_state_actual") ∧
     ObsTables.applicationScanGate = ("health_state_visible", "health_state_actual") ∧
     ObsTables.fileScanGate = ("visible_status", "health_status") ∧
-    ObsTables.folderScanGate = ("cached:health_status|scanned:visible_status", "health_status") ∧
-    ObsTables.folderCacheUpdated = true := by
+    -- since repair 59ceb16: the cached health only for the folder object it was read from (`FolderObs.sameFolder`), the folder's own
+    -- visible health in the step a scan completes OR for another object; the identity is updated with the cache on every present
+    -- observation, starts as None, and the branch for an absent folder changes nothing (`FolderObs.next`)
+    ObsTables.folderScanGate = ("cached-of-this-folder:health_status|scanned-or-other-folder:visible_status", "health_status") ∧
+    ObsTables.folderCacheUpdated = true ∧
+    ObsTables.folderCacheIdentity = ("None", "folder_state.get('uuid')", "return self.default_observation") := by
   decide
 
 theorem describedOp_eq_specOp (s : SoftwareT) : describedOp s = specOp s := by
@@ -197,7 +201,34 @@ theorem C09_file_eq_spec (o : FileObs) (t : Truth) (ht : o.thr.Ok) : o.val (desc
 cached health is the folder's visible health. (It holds initially — both are 0 — and `C09_folder_coherent_step` shows every
 observation re-establishes it.) -/
 def FolderObs.Coherent (o : FolderObs) (t : Truth) : Prop :=
-  o.scan = true → ∀ h fo f, o.wh = some (h, fo) → t.folder h fo = some f → f.scanned = false → o.cached = f.visible
+  o.scan = true → ∀ h fo f, o.wh = some (h, fo) → t.folder h fo = some f → f.scanned = false →
+    (o.cachedFor = none ∨ o.cachedFor = f.uid) → o.cached = f.visible
+
+theorem FolderObs.sameFolder_iff (o : FolderObs) (fs : FolderState) :
+    o.sameFolder fs = true ↔ (o.cachedFor = none ∨ o.cachedFor = fs.uid) := by
+  unfold FolderObs.sameFolder
+  cases hc : o.cachedFor with
+  | none => simp
+  | some u =>
+    simp only [Option.isNone_some, Bool.false_or, beq_iff_eq]
+    constructor
+    · intro h; exact Or.inr h.symm
+    · intro h; rcases h with h | h
+      · cases h
+      · exact h.symm
+
+/-- with scanning required, the leaf is the folder's visible health whenever the memory is coherent with it: a cache read from
+ANOTHER folder object is never used (59ceb16), a cache read from this one is its last-scanned health -/
+theorem FolderObs.health_eq_visible (o : FolderObs) (fs : FolderState) (hs : o.scan = true)
+    (hc : fs.scanned = false → (o.cachedFor = none ∨ o.cachedFor = fs.uid) → o.cached = fs.visible) : o.health fs = fs.visible := by
+  unfold FolderObs.health
+  simp only [hs, if_true]
+  cases hsc : fs.scanned with
+  | true => simp
+  | false =>
+    cases hsame : o.sameFolder fs with
+    | false => simp
+    | true => simpa [hsame] using hc hsc ((o.sameFolder_iff fs).mp hsame)
 
 theorem C09_folder_eq_spec (o : FolderObs) (t : Truth) (c : o.Coherent t) (ht : ∀ x ∈ o.files, x.thr.Ok) :
     o.val (describe t) = o.spec t := by
@@ -211,15 +242,13 @@ theorem C09_folder_eq_spec (o : FolderObs) (t : Truth) (c : o.Coherent t) (ht : 
     cases hf : t.folder h fo with
     | none => rfl
     | some f =>
-      simp only [Option.map_some, describeFolder, FolderObs.health]
-      have hh : (if o.scan = true then (if f.scanned = true then f.visible else o.cached) else f.health) =
-                (if o.scan = true then f.visible else f.health) := by
+      simp only [Option.map_some]
+      have hh : o.health (describeFolder f).2 = (if o.scan = true then f.visible else f.health) := by
         cases hs : o.scan with
-        | false => rfl
+        | false => simp [FolderObs.health, describeFolder, hs]
         | true =>
-          cases hsc : f.scanned with
-          | true => rfl
-          | false => simp only [if_true, Bool.false_eq_true, if_false]; exact c hs h fo f hw hf hsc
+          rw [FolderObs.health_eq_visible o _ hs (fun hsc hsame => c hs h fo f hw hf hsc hsame)]
+          simp [describeFolder]
       rw [hh]
       have hfiles : o.files.map (fun x => x.val (describe t)) = o.files.map (fun x => x.spec t) :=
         List.map_congr_left (fun x hx => C09_file_eq_spec x t (ht x hx))
@@ -602,41 +631,57 @@ theorem C09_acl_slot_assignment (o : AclObs) (st : SimState) (slots : List (Opti
 
 /-! ### the per-object memory -/
 
-/-- after observing a present folder, the cache is the value just reported; if the object was coherent it is the visible health -/
+/-- after observing a present folder, the cache is the value just reported and belongs to THAT folder object; if the object was
+coherent it is the visible health -/
 theorem C09_folder_coherent_step (o : FolderObs) (st : SimState) (f : FolderState) (hf : o.find st = some f) (hs : o.scan = true)
-    (hc : f.scanned = false → o.cached = f.visible) : (o.next st).cached = f.visible := by
-  simp only [FolderObs.next, hf, FolderObs.health, hs, if_true]
-  cases hsc : f.scanned with
-  | true => rfl
-  | false => simp only [Bool.false_eq_true, if_false]; exact hc hsc
+    (hc : f.scanned = false → (o.cachedFor = none ∨ o.cachedFor = f.uid) → o.cached = f.visible) :
+    (o.next st).cached = f.visible ∧ (o.next st).cachedFor = f.uid := by
+  simp only [FolderObs.next, hf]
+  exact ⟨FolderObs.health_eq_visible o f hs hc, trivial⟩
 
-/-- health leaves reported for a folder that stays present, step after step -/
+/-- health leaves reported for a folder NAME that stays present, step after step (the object behind the name may change) -/
 def folderRun (o : FolderObs) : List FolderState → List Nat
   | [] => []
-  | f :: fs => o.health f :: folderRun { o with cached := o.health f } fs
+  | f :: fs => o.health f :: folderRun { o with cached := o.health f, cachedFor := f.uid } fs
 
 /-- the simulator changes a folder's visible health only in a step it flags with `scanned_this_step` -/
 def ScanCoherent (v0 : Nat) : List FolderState → Prop
   | [] => True
   | f :: fs => (f.scanned = false → f.visible = v0) ∧ ScanCoherent f.visible fs
 
-/-- **the cache tracks the visible health along every trajectory**: with scanning required, starting with a cache equal to the
-visible health, the folder leaf equals the folder's visible health at EVERY step (not only in the step a scan completes —
-the defect F-17 of the unchanged code). -/
-theorem C09_folder_cache_tracks_visible (fs : List FolderState) :
-    ∀ (o : FolderObs) (v0 : Nat), o.scan = true → o.cached = v0 → ScanCoherent v0 fs →
+/-- the same, per folder OBJECT: a state whose uuid differs from the previous one (a folder created under the name of a deleted one)
+may show any visible health; only the SAME object (or states without uuid) must keep it until a scan is flagged -/
+def ScanCoherentId (v0 : Nat) (u0 : Option Nat) : List FolderState → Prop
+  | [] => True
+  | f :: fs => (f.scanned = false → (u0 = none ∨ u0 = f.uid) → f.visible = v0) ∧ ScanCoherentId f.visible f.uid fs
+
+theorem scanCoherentId_of_scanCoherent : ∀ (fs : List FolderState) (v0 : Nat) (u0 : Option Nat), ScanCoherent v0 fs → ScanCoherentId v0 u0 fs
+  | [], _, _, _ => trivial
+  | f :: fs, _, _, h => ⟨fun hsc _ => h.1 hsc, scanCoherentId_of_scanCoherent fs f.visible f.uid h.2⟩
+
+/-- **the cache tracks the visible health of whichever folder object bears the name** (after repair 59ceb16): with scanning required,
+starting with a cache equal to the visible health of the object it was read from, the folder leaf equals the visible health of the
+folder that is there at EVERY step — the same object until its next scan (also across its deletion and restoration, during which
+nothing is observed), and a NEW object of the same name from its first observation on (F-C09-4 / F-C09-5). -/
+theorem C09_folder_cache_tracks_visible_id (fs : List FolderState) :
+    ∀ (o : FolderObs) (v0 : Nat) (u0 : Option Nat), o.scan = true → o.cached = v0 → o.cachedFor = u0 → ScanCoherentId v0 u0 fs →
       folderRun o fs = fs.map (·.visible) := by
   induction fs with
-  | nil => intro _ _ _ _ _; rfl
+  | nil => intro _ _ _ _ _ _ _; rfl
   | cons f fs ih =>
-    intro o v0 hs hc hco
-    have hh : o.health f = f.visible := by
-      simp only [FolderObs.health, hs, if_true]
-      cases hsc : f.scanned with
-      | true => rfl
-      | false => simp only [Bool.false_eq_true, if_false]; rw [hc]; exact (hco.1 hsc).symm
+    intro o v0 u0 hs hc hu hco
+    have hh : o.health f = f.visible :=
+      FolderObs.health_eq_visible o f hs (fun hsc hsame => by rw [hc]; exact (hco.1 hsc (by rw [← hu]; exact hsame)).symm)
     simp only [folderRun, List.map_cons, hh]
-    rw [ih { o with cached := f.visible } f.visible hs rfl hco.2]
+    rw [ih { o with cached := f.visible, cachedFor := f.uid } f.visible f.uid hs rfl rfl hco.2]
+
+/-- **the cache tracks the visible health along every trajectory** of one folder: with scanning required, starting with a cache
+equal to the visible health, the folder leaf equals the folder's visible health at EVERY step (not only in the step a scan
+completes — the defect F-17 of the unchanged code). -/
+theorem C09_folder_cache_tracks_visible (fs : List FolderState) :
+    ∀ (o : FolderObs) (v0 : Nat), o.scan = true → o.cached = v0 → ScanCoherent v0 fs →
+      folderRun o fs = fs.map (·.visible) :=
+  fun o v0 hs hc hco => C09_folder_cache_tracks_visible_id fs o v0 o.cachedFor hs hc rfl (scanCoherentId_of_scanCoherent fs v0 _ hco)
 
 /-- NMNE memory: after observing a capturing interface the remembered counters are the current ones, so the next leaf is the
 band of the events of the next step only -/
@@ -679,7 +724,7 @@ theorem exHost9_coherent : exHost9.Coherent exTruth := by
   intro f hf
   simp only [exHost9, exHost, List.map_cons, List.map_nil, List.mem_singleton] at hf
   subst hf
-  intro _ h fo f hw hfo _
+  intro _ h fo f hw hfo _ _
   simp only [Option.some.injEq, Prod.mk.injEq] at hw
   obtain ⟨rfl, rfl⟩ := hw
   simp [Truth.folder, Truth.node, exTruth] at hfo
